@@ -1117,12 +1117,17 @@ DLLIMPORT cfg_value_t *cfg_setopt(cfg_t *cfg, cfg_opt_t *opt, const char *value)
 DLLIMPORT int cfg_opt_setmulti(cfg_t *cfg, cfg_opt_t *opt, unsigned int nvalues, char **values)
 {
 	cfg_opt_t old;
+	char *comment;
 	unsigned int i;
 
 	if (!opt || !nvalues) {
 		errno = EINVAL;
 		return CFG_FAIL;
 	}
+
+	/* the annotation belongs to the option, not to either set of values */
+	comment = opt->comment;
+	opt->comment = NULL;
 
 	old = *opt;
 	opt->nvalues = 0;
@@ -1138,11 +1143,13 @@ DLLIMPORT int cfg_opt_setmulti(cfg_t *cfg, cfg_opt_t *opt, unsigned int nvalues,
 		opt->values = old.values;
 		opt->flags &= ~(CFGF_RESET | CFGF_MODIFIED);
 		opt->flags |= old.flags & (CFGF_RESET | CFGF_MODIFIED);
+		opt->comment = comment;
 
 		return CFG_FAIL;
 	}
 
 	cfg_free_value(&old);
+	opt->comment = comment;
 	opt->flags |= CFGF_MODIFIED;
 
 	return CFG_SUCCESS;
